@@ -51,6 +51,8 @@ def build(chk):
     c_pressure_tail(chk)
     c_weight(chk)
     c_updateGrid(chk)
+    from .C19_stencils import c_effective_potential
+    c_effective_potential(chk)
 
 
 def c_updateGrid(chk):
